@@ -442,9 +442,21 @@ def _rewrite_r6(it, edits, applied, relfile, lo_t, hi_t):
                 else:
                     recv_txt = src[recv_start:recv_end]
                 new = f'str_find_char({recv_txt}, {arg})'
-                edits.append(Edit(recv_start, toks[close].end, new, 'R6'))
-                applied.append(f'R6 {relfile}:{it.line_of(t.start)}: `{src[recv_start:toks[close].end]}` -> `{new}`')
-                j = close + 1
+                end_tok = close
+                # R11: `OPT.map(|x| EXPR)` directly on the result -> `(match OPT { Some(x) => Some(EXPR), None => None })`
+                # (the definition of Option::map; Verus cannot take a precondition-free closure that does arithmetic)
+                if (toks[close + 1].text == '.' and toks[close + 2].text == 'map' and toks[close + 3].text == '('
+                        and toks[close + 4].text == '|' and toks[close + 5].kind == 'ident' and toks[close + 6].text == '|'):
+                    mclose = rsx.match_close(toks, close + 3)
+                    var = toks[close + 5].text
+                    body = src[toks[close + 7].start:toks[mclose - 1].end]
+                    old_txt = src[recv_start:toks[mclose].end]
+                    new = f'(match {new} {{ Some({var}) => Some({body}), None => None }})'
+                    end_tok = mclose
+                    applied.append(f'R11 {relfile}:{it.line_of(toks[close + 2].start)}: `.map(|{var}| {body})` -> `match .. {{ Some({var}) => Some({body}), None => None }}`')
+                edits.append(Edit(recv_start, toks[end_tok].end, new, 'R6'))
+                applied.append(f'R6 {relfile}:{it.line_of(t.start)}: `{" ".join(src[recv_start:toks[close].end].split())}` -> `str_find_char(..)`')
+                j = end_tok + 1
                 continue
         j += 1
 
